@@ -46,7 +46,7 @@ def decls_for(config):
 
 def make_cid(config, decls, type_name="VerifRec", check_type="VerifProto"):
     rows = harness.cid_rows(config["preset"], decls, [["k%d" % i, check_type, rule] for i, rule in enumerate(config["checks"])], config["header"],
-                            allowed=allowed_items(config) if config.get("allowed") else None, line_delimiter="lf")
+                            allowed=allowed_items(config) if config.get("allowed") else None, line_delimiter="lf", allowed_after_fields=bool(config.get("allowed_after")))
     for row in rows:
         if row[0] == "F":
             row[5] = type_name
@@ -238,6 +238,9 @@ def configs(tier):
                         if tier == "quick" and (header == 2 or len(fields) == 3) and (allowed or len(checks) == 1):
                             continue
                         result.append({"preset": preset, "header": header, "fields": fields, "checks": checks, "allowed": allowed})
+                        if allowed is True and header == 0 and len(checks) in (0, 2):
+                            # the allowed-characters row declared behind the field rows: it applies all the same
+                            result.append({"preset": preset, "header": header, "fields": fields, "checks": checks, "allowed": allowed, "allowed_after": True})
     return result
 
 
